@@ -315,6 +315,52 @@ def answer (m : String) (judge : String → Option (List (String × Spec.Verdict
       | none => "unparsed"
     s!"{m} ## I:{iv} M:{mv}"
 
+/-! bulk sweeps (thorough tier): 65 536 variants of one packet, two byte positions swept, answered
+by a digest of all observations so that no text crosses the pipe per case -/
+
+def fnv (h : UInt64) (s : String) : UInt64 :=
+  (s.toUTF8.foldl (fun h b => (h ^^^ b.toUInt64) * 0x100000001b3) h ^^^ 10) * 0x100000001b3
+
+def refixPec (q : Bytes) : Bytes :=
+  match q with
+  | [] => []
+  | _ => q.dropLast ++ [crc8 q.dropLast]
+
+def decSweep (p : Bytes) (i j : Nat) (fix : Bool) : String := Id.run do
+  let mut h : UInt64 := 0xcbf29ce484222325
+  let mut nok := 0
+  let mut nerr := 0
+  let mut npanic := 0
+  for a in [0:256] do
+    for b in [0:256] do
+      let q := (p.set i (BitVec.ofNat 8 a)).set j (BitVec.ofNat 8 b)
+      let q := if fix then refixPec q else q
+      let r := decode q
+      match r with
+      | .ok _ => nok := nok + 1
+      | .err _ => nerr := nerr + 1
+      | .panic _ => npanic := npanic + 1
+      h := fnv h (showDec r)
+  return s!"sweep {h.toNat} {nok} {nerr} {npanic}"
+
+def procSweep (c : Ctx) (p : Bytes) (i j : Nat) (buf : Bytes) : Ctx × String := Id.run do
+  let mut h : UInt64 := 0xcbf29ce484222325
+  let mut c := c
+  let mut nok := 0
+  let mut nerr := 0
+  let mut npanic := 0
+  for a in [0:256] do
+    for b in [0:256] do
+      let q := refixPec ((p.set i (BitVec.ofNat 8 a)).set j (BitVec.ofNat 8 b))
+      let (c', r, b') := process c q buf
+      c := c'
+      match r with
+      | .ok _ => nok := nok + 1
+      | .err _ => nerr := nerr + 1
+      | .panic _ => npanic := npanic + 1
+      h := fnv h s!"{showProc r} | {hexBytes b'} | {showEids c'}"
+  return (c, s!"sweep {h.toNat} {nok} {nerr} {npanic}")
+
 def handle (st : St) (line : String) : St × String :=
   let (opPart, impl) : String × Option String :=
     match line.splitOn " => " with
@@ -398,6 +444,23 @@ def handle (st : St) (line : String) : St × String :=
         (st, answer m judge impl)
       | _, _ => (st, "bad-op")
     | _, _, _ => (st, "bad-op")
+  | ["decsweep", pkt, i, j, mode] =>
+    match parseBytes pkt, i.toNat?, j.toNat? with
+    | some p, some i, some j => (st, decSweep p i j (mode == "fix"))
+    | _, _, _ => (st, "bad-op")
+  | ["procsweep", id, pkt, i, j, buf] =>
+    match st.get id, parseBytes pkt, i.toNat?, j.toNat?, parseBytes buf with
+    | some c, some p, some i, some j, some b =>
+      let (c', ans) := procSweep c.model p i j b
+      -- the specification state follows the same 65 536 operations
+      let spec' := Id.run do
+        let mut s := c.spec
+        for a in [0:256] do
+          for bb in [0:256] do
+            s := s.step (.process (refixPec ((p.set i (BitVec.ofNat 8 a)).set j (BitVec.ofNat 8 bb))) b)
+        return s
+      (st.put id ⟨c', spec'⟩, ans)
+    | _, _, _, _, _ => (st, "bad-op")
   | ["view", "get", f, raw] =>
     match fieldOf f, parseBytes raw with
     | some f, some r => (st, s!"{f.get r}")
